@@ -61,11 +61,12 @@ Section Statements.
   Lemma stmt_exact_follow sched roots l x :
     c_follow c = true -> c_no_ignore c = true -> c_one_fs c = false ->
     N.of_nat (length (keys t)) < c_depth c -> (forall p, sel_dir p = true) ->
+    (c_hidden c = true \/ forall p, In p (keys t) -> name_hidden p = false) ->
     scan sel_file sel_dir ign1 t c sched roots = Done l ->
     (In x l <-> selected sel_file sel_dir ign1 t c false roots x /\ size_ok t c x = true).
   Proof.
-    intros H1 H2 H3 H4 H5 H. destruct (scan_spec _ _ _ _ _ _ _ _ H) as (l0 & Hw & _ & Hl).
-    rewrite Hl. rewrite (walk_exact_follow _ _ _ _ _ _ H1 H2 H3 H4 H5 _ _ x Hw). tauto.
+    intros H1 H2 H3 H4 H5 H6 H. destruct (scan_spec _ _ _ _ _ _ _ _ H) as (l0 & Hw & _ & Hl).
+    rewrite Hl. rewrite (walk_exact_follow _ _ _ _ _ _ H1 H2 H3 H4 H5 H6 _ _ x Hw). tauto.
   Qed.
 
   Lemma stmt_prune sched sched' roots l l' x :
@@ -145,7 +146,7 @@ Proof.
   { apply V_root. vm_compute. now left. }
   assert (E01 : edge wsel_dir no_ign wtree wcfg2 false tk0 tk1).
   { apply (E_child wsel_dir no_ign wtree wcfg2 false tk0 (mkNode KDir 1) [nA; nL]).
-    - repeat split; try (now left); try (now right); try (intros; discriminate).
+    - repeat split; try (now left); try (now right); try (right; now right); try (intros; discriminate).
     - reflexivity.
     - vm_compute. reflexivity.
     - discriminate.
@@ -154,7 +155,7 @@ Proof.
     - right. left. reflexivity. }
   assert (E12 : edge wsel_dir no_ign wtree wcfg2 false tk1 tk2).
   { apply (E_link wsel_dir no_ign wtree wcfg2 false tk1 (mkNode (KLink false [dotdot; nD]) 1) false [dotdot; nD] [nD] (mkNode KDir 1)).
-    - repeat split; try (now left); try (now right); try (intros; discriminate).
+    - repeat split; try (now left); try (now right); try (right; now right); try (intros; discriminate).
     - reflexivity.
     - reflexivity.
     - vm_compute. reflexivity.
@@ -162,7 +163,7 @@ Proof.
     - discriminate. }
   assert (E23 : edge wsel_dir no_ign wtree wcfg2 false tk2 tk3).
   { apply (E_child wsel_dir no_ign wtree wcfg2 false tk2 (mkNode KDir 1) [nD; nF]).
-    - repeat split; try (now left); try (now right); try (intros; discriminate).
+    - repeat split; try (now left); try (now right); try (right; now right); try (intros; discriminate).
     - reflexivity.
     - vm_compute. reflexivity.
     - discriminate.
@@ -172,7 +173,7 @@ Proof.
   exists tk3. split.
   - eapply V_step; [eapply V_step; [eapply V_step; [exact V0|exact E01]|exact E12]|exact E23].
   - exists (mkNode (KFile 2) 1). split; [|split; [reflexivity|split; [reflexivity|now left]]].
-    repeat split; try (now left); try (now right); try (intros; discriminate).
+    repeat split; try (now left); try (now right); try (right; now right); try (intros; discriminate).
 Qed.
 
 Lemma N2_lost : walk wsel_file wsel_dir no_ign wtree wcfg2 sched_lifo [[nA]] = Done [] /\
@@ -211,5 +212,17 @@ Definition wcfg3 : config := mkConfig 2 false false false false false 1 huge.
 Lemma ex_nofollow : scan all_true all_true no_ign wtree wcfg3 sched_lifo [[]; [nD]] = Done [[nD; nF]].
 Proof. vm_compute. reflexivity. Qed.
 Lemma ex_follow : scan all_true all_true no_ign wtree wcfg2 sched_lifo [[]] = Done [[nD; nF]]
-                  /\ N.of_nat (length (keys wtree)) < c_depth wcfg2.
+                  /\ N.of_nat (length (keys wtree)) < c_depth wcfg2
+                  /\ (forall p, In p (keys wtree) -> name_hidden p = false).
+Proof.
+  split; [vm_compute; reflexivity|]. split; [vm_compute; reflexivity|].
+  intros p H. vm_compute in H. repeat (destruct H as [<-|H]; [reflexivity|]). destruct H.
+Qed.
+(* the input path itself may be hidden (walk.rs tests hidden names only at level > 0): /.h/f is found
+   from the input path /.h without --hidden, but not from / *)
+Definition nH : comp := [46; 104].
+Definition htree : tree := [ ([], mkNode KDir 1); ([nH], mkNode KDir 1); ([nH; nF], mkNode (KFile 2) 1) ].
+Lemma ex_hidden_root :
+  scan all_true all_true no_ign htree wcfg3 sched_lifo [[nH]] = Done [[nH; nF]] /\
+  scan all_true all_true no_ign htree wcfg3 sched_lifo [[]] = Done [].
 Proof. split; vm_compute; reflexivity. Qed.
